@@ -158,11 +158,13 @@ func (p *PropertySchema) ValidateCompatibility(typeOrData any) error {
 			return &ConstraintError{
 				Message: fmt.Sprintf("error while validating sub-type of property %s with type %T (%s)",
 					*p.Display().Name(), p.TypeValue, err),
+				Path: constraintErrorPath(err),
 			}
 		} else {
 			return &ConstraintError{
 				Message: fmt.Sprintf("error while validating sub-type of property type %T (%s)",
 					p.TypeValue, err),
+				Path: constraintErrorPath(err),
 			}
 		}
 	}
